@@ -118,6 +118,8 @@ type Scenario struct {
 	// that scheme, through the ...Scheme entry points (PostInboxScheme, PostOutboxScheme,
 	// NewActivityStreamsHandlerScheme).
 	Scheme string
+	// DeclLen, if not zero, is the Content-Length the request DECLARES (the body itself is unchanged); -1 = unknown
+	DeclLen int64
 	// AltEndpoints: the local actors' inboxes / outboxes are moved to query-routed IRIs (App.UseAltEndpoints)
 	AltEndpoints bool
 	// PreHeaders are already on the ResponseWriter when the library is called (set by middleware or
@@ -196,6 +198,10 @@ func (sc *Scenario) OnReq(a *ap.App, t *mc.T, req *ap.Req) *RunOut {
 		switch sc.Entry {
 		case "PostInbox":
 			r := ap.Request(def(sc.Method, "POST"), reqURL, def(sc.CType, ap.APType), sc.Accept, body)
+			if sc.DeclLen != 0 {
+				r.ContentLength = sc.DeclLen
+				r.Header.Set("Content-Length", fmt.Sprint(sc.DeclLen))
+			}
 			if alt {
 				out.Handled, out.Err = a.Actor(sc.Kind).PostInboxScheme(ctx, out.W, r, a.LocalScheme)
 			} else {
@@ -203,6 +209,10 @@ func (sc *Scenario) OnReq(a *ap.App, t *mc.T, req *ap.Req) *RunOut {
 			}
 		case "PostOutbox":
 			r := ap.Request(def(sc.Method, "POST"), reqURL, def(sc.CType, ap.APType), sc.Accept, body)
+			if sc.DeclLen != 0 {
+				r.ContentLength = sc.DeclLen
+				r.Header.Set("Content-Length", fmt.Sprint(sc.DeclLen))
+			}
 			if alt {
 				out.Handled, out.Err = a.Actor(sc.Kind).PostOutboxScheme(ctx, out.W, r, a.LocalScheme)
 			} else {
